@@ -1,6 +1,8 @@
 import Rare.Proofs.C11Str
 import Rare.Proofs.C11Float
 import Rare.Gen.C11
+import Rare.Proofs.C11Format
+import Rare.Proofs.C11Hf
 /-!
 # C11 — scalar helper functions follow their documented semantics
 
@@ -752,5 +754,111 @@ example : Float.hfStr (F64.ofInt (-1234567)) = ascii "-1,234,567.0000" ∧
     Float.unitize (-1) 1024 0 [32] Strings.iecSizes = ascii "-1 B" ∧
     Float.unitize 9007199254740993 1000 3 [] Strings.unitSize = ascii "9007.199T" ∧
     Float.percentStr (F64.ofRat 0.25) (F64.zero false) F64.one 1 = ascii "25.0%" := by decide +kernel
+
+/-! ## format: `fmt.Sprintf` on string operands (`Funcs/Format.lean`)
+
+`{format f a₁ … aₙ}` evaluates every argument to a string and calls `fmt.Sprintf(f, a₁, …, aₙ)`.  The model
+mirrors Go's `fmt` restricted to string operands (flags, width, precision, `*`, `[n]`, the verbs `s v q x X T`,
+`%!verb(string=…)`, `(MISSING)`, `(BADINDEX)`, `(NOVERB)`, `(EXTRA …)`, `(BADWIDTH)`, `(BADPREC)`); the only
+parameter is `unicode.IsPrint` for non-ASCII runes (`%q`).  The theorems hold for every such oracle. -/
+
+/-- **What a call computes**: `{format f a₁ … aₙ}` – constants, match groups and keys alike – is the model's
+    `Sprintf` of the argument values; it never panics (`Format.sprintf_total`). -/
+theorem format_is_sprintf (isPrint : Nat → Bool) (c : Ctx) (f : Arg) (as : List Arg) :
+    callHelper (Format.kfFormat isPrint) (f :: as) c = Format.sprintf isPrint (f.val c) (as.map (Arg.val c)) ∧
+    ∃ out, Format.sprintf isPrint (f.val c) (as.map (Arg.val c)) = .ok out :=
+  ⟨format_call isPrint c f as, Format.sprintf_total isPrint _ _⟩
+
+/-- **`{format "%s" x}` is `x`**, for every byte string (valid UTF-8 or not). -/
+theorem format_s_identity (isPrint : Nat → Bool) (c : Ctx) (a : Arg) :
+    callHelper (Format.kfFormat isPrint) [.const [37, 115], a] c = .ok (a.val c) := by
+  rw [format_call]; exact sprintf_s isPrint (a.val c)
+
+/-- **Literal text is copied and `%%` is one percent sign**: a format `l₁ %% l₂` whose parts contain no `%`,
+    with no operands, yields `l₁ % l₂` (in particular a format without `%` yields itself). -/
+theorem format_percent_literal (isPrint : Nat → Bool) (l1 l2 : Bytes)
+    (h1 : ∀ b ∈ l1, b ≠ 37) (h2 : ∀ b ∈ l2, b ≠ 37) :
+    Format.sprintf isPrint (l1 ++ 37 :: 37 :: l2) [] = .ok (l1 ++ 37 :: l2) ∧
+    Format.sprintf isPrint l1 [] = .ok l1 := by
+  refine ⟨sprintf_percent isPrint l1 l2 h1 h2, ?_⟩
+  have := formatLoop_literal isPrint [] l1 1 [] {} h1
+  simp only [List.append_nil] at this
+  unfold Format.sprintf
+  rw [show l1.length + 1 = 1 + l1.length by omega, this]
+  simp [Format.formatLoop]
+
+/-- **Width pads with blanks to at least `w` runes; `-` left-justifies**: for a width field `w` written as a
+    decimal numeral `d ds` (first digit not `0`, value at most 9 999 999), `%<w>s` puts `w - runes(x)` blanks
+    in front of `x` and `%-<w>s` behind it – runes counted the way Go counts them (every invalid byte is one) –
+    so the result has `max w (runes x)` runes and always contains `x` unaltered. -/
+theorem format_pad_width (isPrint : Nat → Bool) (d : UInt8) (ds x : Bytes) (hd : 49 ≤ d ∧ d ≤ 57)
+    (hds : ds.all isDigitB = true) (hw : digitsVal (d :: ds) 0 ≤ 9999999) :
+    ∃ pad : Bytes, pad = List.replicate (digitsVal (d :: ds) 0 - Format.runeCount x) 32 ∧
+      Format.sprintf isPrint (37 :: d :: ds ++ [115]) [x] = .ok (pad ++ x) ∧
+      Format.sprintf isPrint (37 :: 45 :: d :: ds ++ [115]) [x] = .ok (x ++ pad) ∧
+      Format.runeCount (pad ++ x) = max (digitsVal (d :: ds) 0) (Format.runeCount x) ∧
+      Format.runeCount (x ++ pad) = max (digitsVal (d :: ds) 0) (Format.runeCount x) := by
+  obtain ⟨h1, h2⟩ := sprintf_width isPrint d ds x hd hds hw
+  refine ⟨_, rfl, h1, h2, ?_, ?_⟩
+  · rw [runeCount_spaces_append]; omega
+  · rw [runeCount_append_spaces]; omega
+
+example : (Format.sprintf (fun _ => true) (Format.lit "%5s|%-5s|") [Format.lit "ab", [0xC3, 0xA9, 0xFF]]).toOption =
+      some (Format.lit "   ab|" ++ [0xC3, 0xA9, 0xFF] ++ Format.lit "   |") ∧
+    (Format.sprintf (fun _ => true) (Format.lit "%q %x %d %[1]s %s %! %") [Format.lit "a\"b", Format.lit "hi"]).toOption =
+      some (Format.lit "\"a\\\"b\" 6869 %!d(MISSING) a\"b hi %!!(MISSING) %!(NOVERB)") ∧
+    (Format.sprintf (fun _ => true) (Format.lit "100%% %s") [Format.lit "x", Format.lit "y"]).toOption =
+      some (Format.lit "100% x%!(EXTRA string=y)") := by decide +kernel
+
+/-! ## hf: the sign of the rendering (KNOWN FINDING: `{hf -Inf}` prints `Inf`)
+
+"`hf` only inserts thousands separators": in particular the rendering keeps the sign of the value.  The full
+statement is
+
+    ∀ x, Spec.SignFaithful x (Float.hfStr x)        -- the output starts with `-` iff the sign bit is set (x not NaN)
+
+It is FALSE for the code as it is: `humanizeFloat` answers `"Inf"` for both infinities
+(pkg/humanize/numeric.go; pinned by the repository's own test `numeric_test.go:47`), so `{hf -Inf}` – and a
+`-Inf` statistic of `rare analyze` – loses its sign.  Proved instead: the statement for every other value
+(`hf_sign_partial`) and the negation at the witness (`hf_neg_inf_counterexample`); the case
+`C11 spec hf 2d496e66` is listed in `known_findings/C11.json`. -/
+
+/-- Every value except `-Inf` keeps its sign: finite values of either sign (zeros and values that round to
+    zero included), and `+Inf`; NaN is the marker `NaN`. -/
+theorem hf_sign_partial (x : F64) (hi : ¬ (x.isInf = true ∧ x.sign = true)) :
+    Spec.SignFaithful x (Float.hfStr x) ∧
+    (x.isNaN = true → Float.hfStr x = ascii "NaN") ∧
+    Float.hfStr (F64.inf false) = Spec.hfInfSpec false := by
+  refine ⟨fun hn => humanizeFloat_sign x Float.hfDecimals (by decide) hn hi, ?_, by decide +kernel⟩
+  intro hn
+  simp [Float.hfStr, Float.humanizeFloat, hn]
+
+/-- The witness: `-Inf` parses (`strconv.ParseFloat("-Inf")`), is rendered `Inf` – the very text of `+Inf` –,
+    which is neither sign-faithful nor the specified `-Inf`; at the call level `{hf -Inf}` = `Inf`. -/
+theorem hf_neg_inf_counterexample :
+    Float.parseF (ascii "-Inf") = some (F64.inf true) ∧
+    Float.hfStr (F64.inf true) = ascii "Inf" ∧
+    Float.hfStr (F64.inf true) = Float.hfStr (F64.inf false) ∧
+    ¬ Spec.SignFaithful (F64.inf true) (Float.hfStr (F64.inf true)) ∧
+    Float.hfStr (F64.inf true) ≠ Spec.hfInfSpec true ∧
+    (∀ c : Ctx, callHelper (Float.unaryF Float.hfStr) [.const (ascii "-Inf")] c = .ok (ascii "Inf")) := by
+  have hp : Float.parseF (ascii "-Inf") = some (F64.inf true) := by decide +kernel
+  have hs : Float.hfStr (F64.inf true) = ascii "Inf" := by decide +kernel
+  refine ⟨hp, hs, by decide +kernel, ?_, by decide +kernel, ?_⟩
+  · intro h
+    have := h (by decide +kernel)
+    revert this
+    decide +kernel
+  · intro c
+    have := (hf_sqrt_call c (.const (ascii "-Inf")) (F64.inf true) hp).1
+    rw [this]
+    show Except.ok (Float.hfStr (F64.inf true)) = _
+    rw [hs]
+
+example : Spec.SignFaithful (F64.ofInt (-1234567)) (Float.hfStr (F64.ofInt (-1234567))) ∧
+    Float.hfStr (F64.ofInt (-1234567)) = ascii "-1,234,567.0000" ∧
+    Float.hfStr (F64.zero true) = ascii "-0.0000" :=
+  ⟨(hf_sign_partial _ (by decide +kernel)).1, by decide +kernel, by decide +kernel⟩
+
 
 end Rare.C11
